@@ -55,14 +55,47 @@ def install(world):
 
 
 # ---------------------------------------------------------------------------------------------- simulated ES
+_TRACE = {}
+
+
+def _trace_config():
+    """
+    The aiohttp trace configuration that the real ``EsClientFactory.create_async`` wires up (which aiohttp signal stamps the start and
+    which ones the end of a request is Rally's code, not the endpoint's): the simulated endpoint raises aiohttp's signals and leaves it to
+    these callbacks to reach ``RequestContextHolder.on_request_start/on_request_end``. Taken once per process from a real client object
+    that never connects.
+    """
+    if "tc" not in _TRACE:
+        from esrally.client import factory as real_factory  # (esrally.client.EsClientFactory itself is replaced by SimEsFactory in E1)
+
+        es = real_factory.EsClientFactory([{"host": "127.0.0.1", "port": 19200}], {}).create_async(client_id=0)
+        nodes = list(es.transport.node_pool.all())
+        if len(nodes) != 1 or len(nodes[0].trace_configs) != 1:
+            raise RuntimeError("sim: cannot find the trace configuration of the client that EsClientFactory.create_async built")
+        _TRACE["es"] = es
+        _TRACE["tc"] = nodes[0].trace_configs[0]
+    return _TRACE["tc"]
+
+
+async def _signal(name):
+    # as aiohttp's Signal.send does: every registered callback, in order
+    for callback in getattr(_trace_config(), name):
+        await callback(None, None, None)
+
+
 class SimEs(RequestContextHolder):
     def __init__(self, hosts=None, client_options=None, client_id=None, api_key=None):
         self.client_id = client_id
         self.closed = False
 
-    async def wire(self, service_time, info):
+    async def wire(self, service_time, info, fault=None):
+        """
+        one HTTP request: aiohttp signals its start, then (for a response) the end when the headers are in and once more per body chunk.
+        With ``fault`` (an exception object) no response arrives: after ``service_time`` aiohttp signals the exception and the client
+        library raises ``fault``; the log entry travels on the exception as ``sim_entry``.
+        """
         w = WORLD
-        self.on_request_start()
+        await _signal("on_request_start")
         entry = dict(info)
         entry.update(
             t_start=w.clock.now,
@@ -71,21 +104,30 @@ class SimEs(RequestContextHolder):
             proc=kernel.current_proc.get(),
         )
         try:
-            if service_time >= 1 / 64:
+            if fault is not None:
+                await asyncio.sleep(service_time)
+            elif service_time >= 1 / 64:
                 # the real client's trace hooks signal the end of a request when the response headers are in and again for every chunk
                 # of the body: the request ends with the last of these signals
                 await asyncio.sleep(service_time * 0.75)
-                self.on_request_end()
+                await _signal("on_request_end")
                 entry["pc_header_end"] = w.clock.perf_counter()
                 await asyncio.sleep(service_time * 0.25)
             else:
                 await asyncio.sleep(service_time)
+                await _signal("on_request_end")
         except asyncio.CancelledError:
             # torn down while on the wire (a cancelled stream of a composite): sent, never answered
             entry.update(t_end=w.clock.now, pc_end=w.clock.perf_counter(), cancelled=True)
             w.wire_cancelled.append(entry)
             raise
-        self.on_request_end()
+        if fault is not None:
+            await _signal("on_request_exception")
+            entry.update(t_end=w.clock.now, pc_end=w.clock.perf_counter(), wire_fault=type(fault).__name__)
+            w.wire_log.append(entry)
+            fault.sim_entry = entry
+            raise fault
+        await _signal("on_response_chunk_received")
         entry.update(t_end=w.clock.now, pc_end=w.clock.perf_counter())
         w.wire_log.append(entry)
         return entry
@@ -235,6 +277,13 @@ class SimRunner:
     def __repr__(self):
         return "sim-op"
 
+    def _update_completion(self, task, ordinal):
+        if self._with_completion:
+            total = WORLD.tasks[task].get("runner-completes-after")
+            if total is not None:
+                self.percent_completed = min(1.0, (ordinal + 1) / total)
+                self.completed = (ordinal + 1) >= total
+
     async def __call__(self, es, params):
         w = WORLD
         task, client, ordinal = params["task"], params["client"], params["ordinal"]
@@ -263,23 +312,47 @@ class SimRunner:
             await asyncio.sleep(spec["pre"])
         wires = []
         nested = spec.get("nested")
+        def failed_on_the_wire():
+            entry["wire"] = [(x["pc_start"], x["pc_end"]) for x in wires]
+            entry["t_wire_start"] = min(x["t_start"] for x in wires)
+            entry["t_wire_end"] = max(x["t_end"] for x in wires)
+            entry["t_exit"] = w.clock.now
+            entry["pc_exit"] = w.clock.perf_counter()
+            if not nested:
+                self._update_completion(task, ordinal)  # (as for the other failing outcomes: the runner keeps track of its progress)
+
         for k, (gap, service) in enumerate(spec["wire"]):
             if gap:
                 await asyncio.sleep(gap)
+            last = k == len(spec["wire"]) - 1
+            # a timeout / connection error is no response: the last wire request of the logical request ends with an exception inside
+            # the client (aiohttp signals on_request_exception instead of the end of a response)
+            wire_fault = _exception_for(spec.get("outcome", "ok")) if last and spec.get("outcome") in WIRE_LEVEL_OUTCOMES else None
+            info = {"task": task, "client": client, "ordinal": ordinal}
             if not nested:
-                wires.append(await es.wire(service, {"task": task, "client": client, "ordinal": ordinal}))
+                try:
+                    wires.append(await es.wire(service, info, fault=wire_fault))
+                except elastic_transport.TransportError as e:
+                    if e is not wire_fault:
+                        raise
+                    wires.append(e.sim_entry)
+                    failed_on_the_wire()
+                    raise
                 continue
             # as runner.Composite does for its sub-requests: every wire request runs in a nested request context of its own; a failing
             # outcome is raised by the last sub-request, i.e. its nested context is left by an exception
             with es.new_request_context():
-                wires.append(await es.wire(service, {"task": task, "client": client, "ordinal": ordinal}))
-                failure = _exception_for(spec.get("outcome", "ok")) if k == len(spec["wire"]) - 1 else None
+                try:
+                    wires.append(await es.wire(service, info, fault=wire_fault))
+                except elastic_transport.TransportError as e:
+                    if e is not wire_fault:
+                        raise
+                    wires.append(e.sim_entry)
+                    failed_on_the_wire()
+                    raise
+                failure = _exception_for(spec.get("outcome", "ok")) if last else None
                 if failure is not None:
-                    entry["wire"] = [(x["pc_start"], x["pc_end"]) for x in wires]
-                    entry["t_wire_start"] = min(x["t_start"] for x in wires)
-                    entry["t_wire_end"] = max(x["t_end"] for x in wires)
-                    entry["t_exit"] = w.clock.now
-                    entry["pc_exit"] = w.clock.perf_counter()
+                    failed_on_the_wire()
                     raise failure
         entry["wire"] = [(x["pc_start"], x["pc_end"]) for x in wires]
         entry["t_wire_start"] = min(x["t_start"] for x in wires)
@@ -288,12 +361,7 @@ class SimRunner:
             await asyncio.sleep(spec["post"])
         entry["t_exit"] = w.clock.now
         entry["pc_exit"] = w.clock.perf_counter()
-        script = w.tasks[task]
-        if self._with_completion:
-            total = script.get("runner-completes-after")
-            if total is not None:
-                self.percent_completed = min(1.0, (ordinal + 1) / total)
-                self.completed = (ordinal + 1) >= total
+        self._update_completion(task, ordinal)
         outcome = spec.get("outcome", "ok")
         weight, unit = spec.get("weight", 1), spec.get("unit", "ops")
         if outcome == "ok":
@@ -330,6 +398,9 @@ class SimRunner:
         if failure is not None:
             raise failure
         raise AssertionError(f"unknown outcome {outcome}")
+
+
+WIRE_LEVEL_OUTCOMES = ("timeout", "conn-error")
 
 
 def _exception_for(outcome):
